@@ -489,8 +489,8 @@ theorem initGlobals_freshNs (name : String) (file : Option String) (impl : GoImp
   | none => simpa using h2
   | some f => simpa using h2.set "__file__" (.str f)
 
-theorem resolve_eq_findPath (dirs : List (Dict Src)) (i : Nat) (name : String) :
-    resolve dirs i name = Spec.findPath dirs i name := by
+theorem resolve_eq_findPath (lab : Nat → String) (dirs : List (Dict Src)) (i : Nat) (name : String) :
+    resolve lab dirs i name = Spec.findPath lab dirs i name := by
   induction dirs generalizing i with
   | nil => rfl
   | cons d ds ih =>
@@ -590,7 +590,7 @@ end loads
 /-- every body the environment can load is outside the dotted-name region -/
 def EnvOK (env : Env) : Prop :=
   (∀ name impl b, env.goMods.get name = some impl → impl.body = some b → BodyOK b) ∧
-  (∀ name file b, resolve env.dirs 0 name = some (file, .code b) → BodyOK b)
+  (∀ name file b, resolve env.lab env.dirs 0 name = some (file, .code b) → BodyOK b)
 
 theorem Spec.importModule_undot (env : Env) (fuel : Nat) (name : String) (s : Spec.S) (hu : Undot name) :
     Spec.importModule env fuel name s =
@@ -627,7 +627,7 @@ theorem importModule_sim (env : Env) (hord : ∀ l k, k ∈ env.ord l ↔ k ∈ 
           (fun b hb => henv.1 name impl b hgo hb) st s h
       | none =>
         simp only
-        cases hres : resolve env.dirs 0 name with
+        cases hres : resolve env.lab env.dirs 0 name with
         | none => exact ⟨h, rfl⟩
         | some p =>
           obtain ⟨file, src⟩ := p
@@ -1040,7 +1040,7 @@ theorem importModule_mono (env : Env) : ∀ fuel name st, (importModule env fuel
       | none =>
         rw [hgo] at hn
         simp only at hn ⊢
-        cases hres : resolve env.dirs 0 name with
+        cases hres : resolve env.lab env.dirs 0 name with
         | none => rfl
         | some p =>
           obtain ⟨file, src⟩ := p
@@ -1123,8 +1123,8 @@ theorem mem_of_get {α} (d : Dict α) (k : String) (v : α) (h : d.get k = some 
     · simp only [hk, if_false] at h
       exact List.mem_cons_of_mem _ (ih h)
 
-theorem resolve_mem_dir (dirs : List (Dict Src)) (i : Nat) (name : String) (file : String) (src : Src)
-    (h : resolve dirs i name = some (file, src)) : ∃ d ∈ dirs, d.get name = some src := by
+theorem resolve_mem_dir (lab : Nat → String) (dirs : List (Dict Src)) (i : Nat) (name : String) (file : String) (src : Src)
+    (h : resolve lab dirs i name = some (file, src)) : ∃ d ∈ dirs, d.get name = some src := by
   induction dirs generalizing i with
   | nil => simp [resolve] at h
   | cons d ds ih =>
@@ -1155,7 +1155,7 @@ theorem envOK_of_undotted (env : Env) (scripts : List Body) (h : undotted env sc
     simp only [hb] at this
     exact bodyOK_of_undotted b this
   · intro name file b hres
-    obtain ⟨d, hd, hg⟩ := resolve_mem_dir _ _ _ _ _ hres
+    obtain ⟨d, hd, hg⟩ := resolve_mem_dir _ _ _ _ _ _ hres
     have := List.all_eq_true.mp (List.all_eq_true.mp h3 d hd) (name, .code b) (mem_of_get _ _ _ hg)
     exact bodyOK_of_undotted b this
   · intro b hb
